@@ -8,17 +8,47 @@ HERE = os.path.dirname(os.path.dirname(os.path.abspath(__file__)))
 TRUSTED = ("Trusted base: numpy/python arithmetic of the oracle, Hypothesis generation and shrinking, "
            "the reading of the property statement recorded in DESIGN.md section 4; ")
 
+def _c(technique, text, ref, category="exploration", note=""):
+    return dict(category=category, technique=technique, text=text, note=TRUSTED + note, ref=ref)
+
+
 CLAIMED = {
-    "C09": dict(
-        category="exploration",
-        technique="exhaustive small-scope enumeration + Hypothesis rule-based state machine against a dict epoch model",
-        text="Every (store kind, n<=6/8, b<=n, key) history of 3*ceil(n/b)+2 get_batch calls is enumerated and checked "
-             "against a dict-based epoch model (multiset invariance, slot identity, no repeat / full coverage per epoch, "
-             "reshuffle immediately after coverage); random larger stores and a rule-based machine interleaving the public "
-             "batch operations of the space-time generator extend it. Exhaustive for the small scope, sampled beyond; no "
-             "claim of absence outside the explored scope.",
-        note=TRUSTED + "reshuffle recognised from store order / key change; stores made of distinct points.",
-        ref="4/C09"),
+    "C01": _c("Hypothesis-generated analytic fields + exhaustive monomial basis against closed-form derivatives",
+              "Every reverse-mode operator (and the forward-mode ones on grid callables) is compared with closed-form numpy "
+              "derivatives of generated fields: exhaustively on all monomials of degree <=3 (which determine a constant-"
+              "coefficient operator of order <=2) in every component for d<=2 (quick) / d<=4 (thorough), +-time, plus random "
+              "trig+quadratic+Gaussian fields; unrelated parameters varied (bitwise invariance). Sampled, not a proof.",
+              "4/C01", note="closed-form derivatives independent of JAX autodiff."),
+    "C02": _c("Hypothesis-generated candidate solutions against closed-form residuals + exact-solution oracle",
+              "Residual of each built-in equation on random analytic fields vs the documented expression evaluated with "
+              "closed-form derivatives (every parameter, Tmax, key layouts), and exact solutions of each equation must give a "
+              "vanishing residual. Exploration over generated inputs.", "4/C02",
+              note="GLV sign convention pinned as stated in evidence assumptions."),
+    "C03": _c("Hypothesis-generated loss specs against a point-by-point numpy reference + metamorphic relations",
+              "total==sum(terms), exact zeros of unconfigured terms, dynamic term vs python-loop reference, linearity in the "
+              "weight, permutation invariance, halves average, on generated ODE/stationary/non-stationary losses.", "4/C03"),
+    "C04": _c("Hypothesis-generated boundary specs against a per-facet numpy reference with geometric outward normals",
+              "Boundary term vs sum over facets of mean weighted squared mismatch with the outward normal derived from the "
+              "facet geometry; global and per-facet specifications, None facets, component selections, scalar/(1,) f "
+              "invariance, 1-vs-k time points invariance, border batches from the real generators.", "4/C04"),
+    "C05": _c("Hypothesis-generated specs against numpy loops written from the statement",
+              "Initial-condition, normalisation and observation terms (incl. observed equation parameters row by row) vs "
+              "reference loops, networks depending on equation parameters so that misalignment is visible.", "4/C05"),
+    "C06": _c("exhaustive enumeration of the (term x group) mask space under one compiled gradient + sampled eager runs",
+              "All 2^9 / 2^12 (and 2^15 in the thorough tier) mask assignments are checked against reference gradient blocks "
+              "(cross-checked by finite differences); exact zeros per unselected pair; values bitwise mask-independent; "
+              "string/tree/default equivalence enumerated.", "4/C06",
+              note="reference blocks come from jax.grad of the library loss with everything selected, validated by finite differences."),
+    "C09": _c("exhaustive small-scope enumeration + Hypothesis rule-based state machine against a dict epoch model",
+              "Every (store kind, n<=6/8, b<=n, key) history of 3*ceil(n/b)+2 get_batch calls is enumerated and checked "
+              "against a dict-based epoch model (multiset invariance, slot identity, no repeat / full coverage per epoch, "
+              "reshuffle immediately after coverage); random larger stores and a rule-based machine interleaving the public "
+              "batch operations of the space-time generator extend it. Exhaustive for the small scope, sampled beyond.",
+              "4/C09", note="reshuffle recognised from store order / key change; stores made of distinct points."),
+    "C12": _c("Hypothesis-generated parameter batches / heterogeneity maps against a per-sample numpy loop",
+              "Every term of single losses with any non-empty subset of batched keys vs per-sample reference; caller's "
+              "parameters unchanged; heterogeneous keys replaced inside the dynamic term only; gradient w.r.t. an "
+              "unbatched parameter vs finite differences of the reference.", "4/C12"),
 }
 
 PENDING_REASON = "check not built yet in this revision (planned, see DESIGN.md 5b); not claimed until its check exists"
